@@ -21,6 +21,12 @@ SPECS = os.path.join(VERIF, "specs")
 HARNESS = os.path.join(VERIF, "harness")
 GUARD = "OMPL_VERIF"
 NCPU = os.cpu_count() or 4
+# optional throttle (development only): /verif/.work/jobs or $VERIF_JOBS caps the parallelism
+try:
+    _cap = os.environ.get("VERIF_JOBS") or open(os.path.join(VERIF, ".work", "jobs")).read().strip()
+    NCPU = max(1, min(NCPU, int(_cap)))
+except (OSError, ValueError):
+    pass
 
 
 class FrameworkError(Exception):
@@ -90,7 +96,7 @@ def build_lib(variant="plain"):
                                stderr=subprocess.STDOUT, text=True)
             if r.returncode != 0:
                 raise FrameworkError("cmake configure failed:\n" + r.stdout[-4000:])
-        r = subprocess.run(["ninja", "-C", bdir, "ompl"], env=_ccache_env(),
+        r = subprocess.run(["ninja", "-j", str(NCPU + 2), "-C", bdir, "ompl"], env=_ccache_env(),
                            stdout=subprocess.PIPE, stderr=subprocess.STDOUT, text=True)
         if r.returncode != 0:
             raise FrameworkError("libompl build failed (this is a build error of the tree "
@@ -217,7 +223,7 @@ def run_tlc(module, cfg=None, workers=None, timeout=600, env=None, simulate=None
     meta = os.path.join(WORK, "tlc", "%s-%d-%d" % (os.path.basename(mpath)[:-4], os.getpid(), _run_counter[0]))
     shutil.rmtree(meta, ignore_errors=True)
     ensure_dir(meta)
-    jopts = ["-XX:+UseParallelGC", "-Xmx" + heap, "-Xss64m"]
+    jopts = ["-XX:+UseParallelGC", "-XX:ParallelGCThreads=%d" % max(1, min(4, workers or 1)), "-Xmx" + heap, "-Xss64m"]
     if dfs:
         jopts.append("-Dtlc2.tool.queue.IStateQueue=StateDeque")
     libdirs = [os.path.join(SPECS, d) for d in sorted(os.listdir(SPECS)) if os.path.isdir(os.path.join(SPECS, d))]
